@@ -322,6 +322,11 @@ def run_tree(case, ctx):
     w = rng.rand(n) + 0.1 if weighted else None
     params = dict(criterion=crit, max_depth=int(rng.randint(1, 6)), min_samples_leaf=int([1, 2, 5, 10][rng.randint(4)]),
                   random_state=0)
+    msl_rows = params["min_samples_leaf"]
+    if (case["sub"] // 5) % 4 == 1 and n >= 17:
+        # the threshold as a fraction of the training set (scikit-learn: ceil(fraction * n_samples) rows per leaf)
+        params["min_samples_leaf"] = float([0.05, 0.1, 0.2][rng.randint(3)])
+        msl_rows = int(numpy.ceil(params["min_samples_leaf"] * n))
     if (case["sub"] // 3) % 3 == 0 and n >= 17:
         # best-first growth: node ids are no longer in preorder (a right branch may be expanded before a left one)
         params["max_leaf_nodes"] = int(rng.randint(3, 9))
@@ -338,7 +343,7 @@ def run_tree(case, ctx):
     ctx.cls("train-dtype=" + tdtype)
     m = layouts.build(PiecewiseTreeRegressor, params, via, as_numpy_scalars=(case["sub"] // 7) % 3 == 0, decoys=
                       dict(criterion="simple" if crit == "mselin" else "mselin", max_depth=params["max_depth"] + 7,
-                           min_samples_leaf=params["min_samples_leaf"] + 3, random_state=5))
+                           min_samples_leaf=msl_rows + 3, random_state=5))
     try:
         r = m.fit(Xfit, yfit) if w is None else m.fit(Xfit, yfit, sample_weight=w)
         pred = m.predict(X)
@@ -357,10 +362,11 @@ def run_tree(case, ctx):
         t.max_depth, params["max_depth"]), cfg=cfg)
     cnt = numpy.bincount(leaf, minlength=t.node_count)
     leaves = numpy.where(t.children_left == -1)[0]
-    if n >= 2 * params["min_samples_leaf"] or len(leaves) > 1:
-        small = [int(l) for l in leaves if cnt[l] < min(params["min_samples_leaf"], n)]
+    if n >= 2 * msl_rows or len(leaves) > 1:
+        small = [int(l) for l in leaves if cnt[l] < min(msl_rows, n)]
         ctx.check(not small, K + "leaf-smaller-than-min_samples_leaf", "leaves %r hold %r training rows, "
-                  "min_samples_leaf=%d" % (small[:4], cnt[small][:4].tolist(), params["min_samples_leaf"]), cfg=cfg)
+                  "min_samples_leaf=%r (%d rows)" % (small[:4], cnt[small][:4].tolist(), params["min_samples_leaf"],
+                                                    msl_rows), cfg=cfg)
     Q = rng.randn(20, d)
     if xkind == "offset2000":
         Q[:, 0] = 2008 + rng.randint(0, 12, 20)
